@@ -294,6 +294,39 @@ def main(ck):
             ck.broken.append("obligation:well_locked cpm_table (ill-locked: %s)" % ",".join(cill))
             ck.coq_log_tail = o[-1500:]
 
+    # the process-wide spl-autoload callback list of the same file (package-level variables autoloadMu / autoload and the
+    # package-level functions around them; walker package mode `-` with vars=, mu=): the slice's backing array is
+    # guarded state (deep=autoload): a header that leaves the lock un-copied and is then iterated is a read outside
+    # the lock (seeded change C10-7: CallAutoLoad iterating autoloadSnapshot() while RemoveAutoLoad filters in place)
+    rc, atable = vcheck.sh([binary, "walk", vcheck.REPO, "parser", "-", "class_path_manager.go", "vars=autoloadMu,autoload", "mu=autoloadMu", "deep=autoload", "entries=exported"]) if binary else (1, "")
+    if rc != 0 or "Definition vm_fields" not in atable or '"CallAutoLoad"' not in atable:
+        ck.log("walker failed on the autoload callback list:\n" + atable[-800:])
+        ck.broken.append("translator:lock-walker(autoload callbacks)")
+    else:
+        abody = atable[atable.index("Definition vm_fields"):].replace("vm_fields", "al_fields").replace("vm_map_fields", "al_map_fields").replace("vm_table", "al_table")
+        aobl = os.path.join(ck.bdir, "AutoloadListLockObligations.v")
+        open(aobl, "w").write("(* GENERATED — lock table of the autoload callback list in parser/class_path_manager.go *)\nFrom Coq Require Import List String.\nImport ListNotations.\nFrom V.Common Require Import LockDiscipline.\nOpen Scope string_scope.\n\n" + abody +
+                              "\nSet Printing Width 100000.\nDefinition ill := Eval vm_compute in ill_locked al_table.\nPrint ill.\n"
+                              "Lemma al_table_well_locked : well_locked al_table = true.\nProof. vm_compute. reflexivity. Qed.\n"
+                              "Theorem al_race_free : forall progs sched, Forall (from_table al_table) progs -> ~ race (LockDiscipline.run (init_state progs) sched).\n"
+                              "Proof. exact (well_locked_race_free_l al_table al_table_well_locked). Qed.\n"
+                              "(* the callbacks themselves run outside the lock *)\n"
+                              "Theorem al_no_callout_under_lock : forall progs sched, Forall (from_table al_table) progs -> forall i h r, nth_error (LockDiscipline.run (init_state progs) sched) i = Some (h, AExt :: r) -> h = Free.\n"
+                              "Proof. exact (well_locked_ext_free_l al_table al_table_well_locked). Qed.\n")
+        rc, o = ck.coqc(aobl, cwd=ck.bdir, timeout=300)
+        ck.obligations += 3
+        ck.checker_cmds.append("coqc .build/C10/AutoloadListLockObligations.v (regenerated from parser/class_path_manager.go by `c10 walk ... - ... vars=autoloadMu,autoload`)")
+        m = re.search(r"ill\s*=\s*\[(.*?)\]\s*:\s*list string", o, re.S)
+        aill = re.findall(r'"([^"]+)"', m.group(1)) if m else []
+        ck.cov["autoload_list_ill_locked_functions"] = aill
+        if rc == 0:
+            ck.discharged += 3
+            ck.theorems += ["al_table_well_locked", "al_race_free", "al_no_callout_under_lock"]
+        else:
+            ck.log("regenerated autoload-list lock obligations FAILED; ill-locked: %s\n%s" % (aill, o[-800:]))
+            ck.broken.append("obligation:well_locked al_table (ill-locked: %s)" % ",".join(aill))
+            ck.coq_log_tail = o[-1500:]
+
     # ---------------------------------------------------------------- (iii) race stress + concurrent histories
     bias = sorted(set(METHOD_OPS[m] for m in ill if m in METHOD_OPS)) or None
     stress = []
@@ -355,6 +388,28 @@ def main(ck):
                 ths.append(mine)
             auto_cfgs.append({"autoload": subs, "threads": ths, "gomaxprocs": g, "repeat": 12, "keepall": True,
                               "want": dict(("App\\S%d\\Item" % k, 1000 + k) for k in range(2 * n))})
+    if not ck.replay:
+        # spl autoload callbacks (process-wide list in parser/class_path_manager.go): 4 callbacks, the first three decline
+        # every Dyn3_* name, the last one defines it; lookups of fresh Dyn3_* names (each goes through CallAutoLoad) run
+        # while other goroutines unregister and re-register the declining callbacks in front of it.  The loader is
+        # registered the whole time: in every sequential order every lookup succeeds (seeded change C10-7: the list is
+        # iterated without a copy while RemoveAutoLoad filters it in place)
+        for (nl, nt, g) in ([(3, 2, 4), (6, 3, 16), (2, 1, 2)] if ck.tier == "quick" else [(nl, nt, g) for nl in (2, 4, 8) for nt in (1, 2, 3) for g in (2, 4, 16)]):
+            ths, wantd = [], {}
+            for t in range(nl):
+                ops = []
+                for i in range(40):
+                    nm = "Dyn3_t%d_%d" % (t, i)
+                    wantd[nm] = 5003
+                    ops.append({"op": "goc", "name": nm})
+                ths.append(ops)
+            for t in range(nt):
+                ops = []
+                for i in range(40):
+                    k = rng.randrange(3)
+                    ops += [{"op": "alunreg", "val": k}, {"op": "alreg", "val": k}]
+                ths.append(ops)
+            auto_cfgs.append({"callbacks": 4, "threads": ths, "gomaxprocs": g, "repeat": 10, "keepall": True, "want": wantd})
     nauto, nauto_bad = 0, 0
     for binx, what in ((binary, "results"), (racebin, "race")):
         if not auto_cfgs:
@@ -383,7 +438,7 @@ def main(ck):
             for run in (o.get("alls") or [[]])[0] or []:
                 for ops, rs in zip(c["threads"], run):
                     for op, r in zip(ops, rs):
-                        if op["op"] == "addns":
+                        if op["op"] in ("addns", "alreg", "alunreg"):
                             continue
                         nauto += 1
                         if r["r"] != 0 or r["d"] != (c.get("want") or want)[op["name"]]:
